@@ -98,6 +98,22 @@ class JEncoder(json.JSONEncoder):
             return json.JSONEncoder.default(self, obj)
 
 
+def _to_xo_names(ftype, value):
+    """A dictionary made by `to_dict` uses the (possibly renamed) python
+    names of a nested hybrid class: translate them to the field names of
+    the underlying struct."""
+    dressing = getattr(ftype, "_DressingClass", None)
+    if dressing is None or not isinstance(value, dict):
+        return value
+    out = {}
+    for kk, vv in value.items():
+        name = dressing._inverse_rename.get(kk, kk)
+        if name in dressing._xo_fnames:
+            vv = _to_xo_names(getattr(ftype, name).ftype, vv)
+        out[name] = vv
+    return out
+
+
 def _build_xofields_dict(bases, data):
     if "_xofields" in data.keys():
         xofields = data["_xofields"].copy()
@@ -272,7 +288,10 @@ class HybridClass(metaclass=MetaHybridClass):
                 dressed_kwargs[kk] = vv
                 xo_kwargs[self._inverse_rename.get(kk, kk)] = vv._xobject
             else:
-                xo_kwargs[self._inverse_rename.get(kk, kk)] = vv
+                name = self._inverse_rename.get(kk, kk)
+                if name in self._xo_fnames:
+                    vv = _to_xo_names(getattr(self._XoStruct, name).ftype, vv)
+                xo_kwargs[name] = vv
 
         self._xobject = self._XoStruct(**xo_kwargs)
 
